@@ -22,13 +22,27 @@ let optz = function None -> "v" | Some z -> string_of_z z
 
 let show_ev (lib_of : int -> int) (e : ev) : string =
   match e with
-  | EIn (inv, i, s) -> "I:" ^ (if inv then "i:" else "c:") ^ sn i ^ ":" ^ sn s
-  | EOut (inv, i, s) -> "O:" ^ (if inv then "i:" else "c:") ^ sn i ^ ":" ^ sn s
+  | EIn (inv, i, s) -> "I:" ^ (if inv then "i:" else "c:") ^ sn i ^ ":@"
+  | EOut (inv, i, s) -> "O:" ^ (if inv then "i:" else "c:") ^ sn i ^ ":@"
   | EGuest (sb, f, a) -> "G:" ^ sn sb ^ ":" ^ sn f ^ ":" ^ string_of_int (lib_of (int_of_nat sb)) ^ ":" ^ string_of_z a
   | EInvRes (sb, r) -> "IR:" ^ sn sb ^ ":" ^ optz r
   | ERan (fn, sb, a) -> "R:" ^ sn fn ^ ":" ^ sn sb ^ ":" ^ string_of_z a
   | EGuestGot (sb, r) -> "GG:" ^ sn sb ^ ":" ^ optz r
   | ETrap (sb, slot) -> "X:" ^ sn sb ^ ":" ^ sn slot
+
+(* the state each notification observes: the hooks of the driver advance the state they are handed by 1000
+   ([threaded]: through the per-sandbox cells as the code does; otherwise what C19 demands: the k-th notification
+   of a sandbox observes its initial state advanced k times) *)
+let show_evs (threaded : bool) (lib_of : int -> int) (evs : ev list) : string list =
+  let f = (fun x -> nat_of_int (int_of_nat x + 1000)) in
+  let sts = ref (if threaded then thread_states f (fun s -> s) evs else expected_states f (fun s -> s) [] evs) in
+  List.map (fun e ->
+      let s = show_ev lib_of e in
+      if String.length s > 0 && s.[String.length s - 1] = '@' then
+        (match !sts with
+         | st :: tl -> sts := tl; String.sub s 0 (String.length s - 1) ^ sn st
+         | [] -> s ^ "?")
+      else s) evs
 
 let show_recs (recs : ((nat * bool) * nat) list) : string =
   String.concat " " (List.map (fun i ->
@@ -68,10 +82,10 @@ let handle (toks : string list) : (string * string * string) option =
       let odd n = (int_of_nat n) mod 2 = 1 in
       let t0 = { cur = ni 99; lastcb = O } in
       let (((evs, ab), t'), recs) = run slot_of odd odd cin cout false true t0 tree in
-      let m = String.concat " " (List.map (show_ev lib_of) evs) ^ " | ab=" ^ (if ab then "1" else "0") ^
+      let m = String.concat " " (show_evs true lib_of evs) ^ " | ab=" ^ (if ab then "1" else "0") ^
               " cur=" ^ (if int_of_nat t'.cur = 99 then "ok" else "BAD") ^ " | " ^ show_recs recs in
       let (sevs, sab) = spec slot_of odd odd cin cout true (ni 99) tree in
-      let s = String.concat " " (List.map (show_ev lib_of) sevs) ^ " | ab=" ^ (if sab then "1" else "0") ^
+      let s = String.concat " " (show_evs false lib_of sevs) ^ " | ab=" ^ (if sab then "1" else "0") ^
               " cur=ok | " ^ show_recs (closes sevs) in
       let depth = let rec d (Node (_, _, _, _, _, _, ks)) = 1 + List.fold_left (fun a k -> max a (d k)) 0 ks in d tree in
       let nab = List.length (List.filter (fun e -> match e with ETrap _ -> true | _ -> false) evs) in
